@@ -4,7 +4,7 @@
 use crate::engine::{Cx, Property, Tier};
 use crate::ensure_p;
 use crate::itsw::*;
-use crate::oracle::{keccak256, word_u128, AHub, AMsg};
+use crate::oracle::{keccak256, word_u128, AHub, AMsg, word_u64};
 use crate::probes::{TokenExec, TokenExecClient};
 use crate::world::*;
 use axelar_soroban_std::types::Token;
@@ -67,6 +67,9 @@ pub enum Op {
     /// approved inbound transfer whose announced amount is above 2^127-1 (hand-encoded): must be refused, not truncated
     InOutOfRangeAmount { tok: u8, to: u8, origin: u8, low: u8, which: u8 },
     AdvanceDays(u8),
+    /// approved hub message asking to deploy a token under the id of a token the history already knows
+    /// (service-deployed or canonical): whatever the service answers, the known token's accounting must go on unchanged
+    InDeployForKnownToken { tok: u8, origin: u8 },
 }
 
 #[derive(Clone, Debug, Serialize, Deserialize)]
@@ -108,6 +111,7 @@ fn op() -> impl Strategy<Value = Op> {
         1 => (0u8..NU as u8, 0u8..2, 0u8..3, 0u8..60, 0u8..10).prop_map(|(user, slot, chain, amount, gas)| Op::OutGasInSameToken { user, slot, chain, amount, gas }),
         1 => (0u8..5, 0u8..NU as u8, 0u8..3, 1u8..50, 0u8..4).prop_map(|(tok, to, origin, low, which)| Op::InOutOfRangeAmount { tok, to, origin, low, which }),
         1 => (0u8..NU as u8, 0u8..5, 0u8..3, any::<bool>()).prop_map(|(user, tok, chain, space)| Op::OutLookalikeChain { user, tok, chain, space }),
+        1 => (0u8..5, 0u8..3).prop_map(|(tok, origin)| Op::InDeployForKnownToken { tok, origin }),
     ]
 }
 
@@ -349,6 +353,20 @@ impl Property for C05 {
                         cx.count("must_fail");
                         ensure_p!(r.is_err(), "step {}: an inbound transfer announcing an amount above 2^127-1 was executed", step);
                         ensure_p!(snapshot(env) == snap0, "step {}: refused inbound transfer changed the ledger", step);
+                    }
+                }
+                Op::InDeployForKnownToken { tok, origin } => {
+                    let ti = *tok as usize % 5;
+                    if let Some(t) = &toks[ti] {
+                        w.inject(&t.id);
+                        let inner = AMsg::Deploy { token_id: t.id, name: b"Again".to_vec(), symbol: b"AGN".to_vec(), decimals: word_u64(7), minter: vec![] };
+                        let payload = ItsWorld::receive_payload(CHAINS[*origin as usize % 3], &inner);
+                        let mid = w.next_message_id();
+                        w.approve_for_its(HUB_CHAIN, &mid, HUB_ADDR, &payload)?;
+                        let r = w.execute(HUB_CHAIN, &mid, HUB_ADDR, &payload);
+                        cx.count("either");
+                        cx.label(if r.is_ok() { "deploy_message_for_known_id_accepted" } else { "deploy_message_for_known_id_refused" });
+                        nontrivial = true;
                     }
                 }
                 Op::OutLookalikeChain { user, tok, chain, space } => {
